@@ -14,8 +14,9 @@ RULE = ("cases are generated literal SPELLINGS (every escape, \\u forms incl. su
         "or is a default-value / accepted-malformed case.")
 
 # findings still open; the repaired ones (raw-control-char, default-null-list-wrapped, block-blank-only,
-# block-escaped-triple-quote) have no cause any more: a regression is reported as a violation
-KEYS = ["braced-unicode-escape", "block-quote-next-to-whitespace", "malformed-literal-accepted"]
+# block-escaped-triple-quote, braced-unicode-escape, block-quote-next-to-whitespace) have no cause any more:
+# a regression is reported as a violation
+KEYS = ["malformed-literal-accepted"]
 
 _known = set()
 
